@@ -17,7 +17,8 @@ import (
 
 type scen struct {
 	faults.Scen
-	bound int
+	bound  int
+	second int // histories: 1-based index of a second failing invocation (fault More[0]); 0: none
 }
 
 func (s scen) name() string { return s.Scen.Name() + fmt.Sprintf(" B=%d", s.bound) }
@@ -37,8 +38,9 @@ type expect struct {
 	errorType string // for error-json
 }
 
-func (s scen) expected() expect {
-	f := s.F
+func (s scen) expected() expect { return expectedFor(s.F) }
+
+func expectedFor(f *faults.Fault) expect {
 	switch f.Who {
 	case "runtime":
 		switch f.Point {
@@ -101,13 +103,16 @@ func (s scen) judge(e *sched.Exec) (string, string, *sched.Failure) {
 		}
 	}
 	fi := s.FailingInvocation()
-	exp := s.expected()
 	var outs []string
 	for i, inv := range w.Invokes {
 		echo := string(faults.Echo(i))
 		got := classify(inv, echo)
 		outs = append(outs, fmt.Sprintf("%d:%s", inv.Status, got))
-		if i+1 != fi && s.F.Point != "launch" {
+		exp := s.expected()
+		if s.second != 0 && i+1 == s.second {
+			exp = expectedFor(s.More[0])
+		}
+		if i+1 != fi && i+1 != s.second && s.F.Point != "launch" {
 			if inv.Status != 200 || string(inv.Body) != echo {
 				failf("4", fmt.Sprintf("other-invocation-%s:status=%d:%s", rel(i+1, fi), inv.Status, got), "invocation %d (%s the faulty one) ended with status %d body %q", i+1, rel(i+1, fi), inv.Status, trunc(inv.Body))
 			}
@@ -269,6 +274,25 @@ func init() {
 				add(next, faults.Fault{Who: "runtime", Point: "launch", Action: la, At: 1}, b0)
 				for x := 0; x < next; x++ {
 					add(next, faults.Fault{Who: fmt.Sprintf("ext%d", x), Point: "launch", Action: la, At: 1}, b0)
+				}
+			}
+		}
+		// histories: a second fault in the environment started after the first one
+		for next := 0; next <= 1; next++ {
+			for _, p1 := range []string{"after-next", "before-next"} {
+				for _, p2 := range []string{"after-next", "idle"} {
+					f1 := faults.Fault{Who: "runtime", Point: p1, Action: "exit1", At: 1, Phase: "p1"}
+					f2 := faults.Fault{Who: "runtime", Point: p2, Action: "sig9", At: 1, Phase: "p2"}
+					second := 2
+					if p2 == "idle" {
+						second = 3
+					}
+					ss = append(ss, scen{Scen: faults.Scen{NExt: next, F: &f1, More: []*faults.Fault{&f2}, Timeout: 3, NInv: 5, FailAt: 1, PhaseOf: func(i int) string {
+						if i == 1 {
+							return "p1"
+						}
+						return "p2"
+					}}, bound: b0, second: second})
 				}
 			}
 		}
